@@ -1212,9 +1212,65 @@ class C19(BaseMonitor):
         self.compare_variants(-1, {"op": "initial"})
 
     def next_op(self, i):
-        return opgen.gen_edit(self.k.rng("op", i), self.sim.spec, self.cfg, i, mix=self.MIX)
+        r = self.k.rng("op", i)
+        if self.opts.get("with_simulations", True) and r.random() < 0.15:
+            spec = self.sim.spec
+            op = opgen.gen_simulate(r, spec, self.cfg, set(S.closure(spec)), i,
+                                    date_kind=r.choice(["first", "interior", "interior", "last"]))
+            if op is not None:
+                op["toggles"] = []
+                return op
+        return opgen.gen_edit(r, self.sim.spec, self.cfg, i, mix=self.MIX)
+
+    def step_simulation(self, i, op):
+        """The what-if values are calculated quantities too: they must not depend on ids / orders either."""
+        from efsim.runner import watchdog
+        snaps, statuses = [], []
+        for label, sim, perm in self.variants:
+            vop = self.permute_op(op, sim.spec) if perm else op
+            if perm:
+                for ch, vch in zip(op["changes"], vop["changes"]):
+                    if ch["value"][0] == "refs" and ch["obj"] in sim.spec["objs"]:
+                        vch["value"] = ["refs", self.permuted(ch["value"][1], sim.spec["objs"][ch["obj"]]["cls"], ch["attr"],
+                                                              (ch["obj"], op.get("i")))]
+            try:
+                with watchdog():
+                    mu = sim.apply(vop)
+                    mu.set_updated_values()
+                    names_ = [n for n in S.closure(sim.spec) if n in sim.world.objs]
+                    snaps.append(C.calc_snapshot(sim.world, names_))
+                    mu.reset_values()
+                statuses.append("ok")
+            except opgen_skip():
+                statuses.append("skip")
+                snaps.append(None)
+            except Exception as e:
+                statuses.append("raised:" + type(e).__name__)
+                snaps.append(None)
+        self.res.count("fault:simulation")
+        if len(set(s_.split(":")[0] for s_ in statuses)) > 1:
+            raise Violation("C19", "accept_raise_disagreement", {op_kind(op)},
+                            "variants disagree on a simulation: " + ", ".join(
+                                f"{lab}: {st}" for (lab, _, _), st in zip(self.variants, statuses)), i, op_kind(op))
+        if statuses[0] != "ok":
+            return statuses[0].split(":")[0]
+        for (label, sim, perm), other in zip(self.variants[1:], snaps[1:]):
+            diffs = C.diff_snapshots(snaps[0], other, self.cls_of)
+            self.res.count("simulated_values_compared", len(snaps[0]))
+            if diffs:
+                if near_integer_instances(self.variants[0][1].world, S.closure(self.variants[0][1].spec)):
+                    self.res.count("excused_boundary")
+                    return "ok"
+                if "simulated_values_differ" in self.opts.get("tolerated_oracles", []):
+                    self.res.count("known:simulated_values_differ")
+                    return "ok"
+                raise Violation("C19", "simulated_values_differ", self.where_of(diffs),
+                                f"what-if values, '{label}' vs '{self.variants[0][0]}': " + self.fmt(diffs), i, op_kind(op))
+        return "ok"
 
     def step(self, i, op):
+        if op["op"] == "simulate":
+            return self.step_simulation(i, op)
         statuses = []
         for label, sim, perm in self.variants:
             vop = self.permute_op(op, sim.spec) if perm else op
